@@ -606,14 +606,21 @@ def lod_history(inp, W):
     nodes = [inp["data"]]
     warnings = [0]
     def use(i, fn):
+        if nodes[i] is None: return None
         buf = io.StringIO()
         with contextlib.redirect_stdout(buf):
             r = fn(nodes[i])
         warnings[i] += buf.getvalue().count(WARNING_TEXT)
         return r
     other = di.ListOfDicts([{"id": 100, "k": 5}])
+    r = None
     for st in inp["steps"]:
         t = st["target"]; m = st["method"]
+        if st.get("release"):
+            # method chains: the program keeps no name for these lists any more (x.filter(...).sort(...).modify(...))
+            r = None
+            for i in st["release"]: nodes[i] = None
+            import gc; gc.collect()
         if m == "copy": r = use(t, lambda x: x.copy())
         elif m == "deepcopy": r = use(t, lambda x: x.deepcopy())
         elif m == "filter": r = use(t, lambda x: x.filter(lambda item: True))
@@ -642,7 +649,7 @@ def lod_history(inp, W):
         elif m == "left_join": r = use(t, lambda x: x.left_join(other, "id"))
         else: raise RuntimeError(m)
         nodes.append(r); warnings.append(0)
-    flags = [bool(list.__getattribute__(x, "_obsolete")) for x in nodes]
+    flags = [None if x is None else bool(list.__getattribute__(x, "_obsolete")) for x in nodes]
     first = []; second = []
     import copy as _copy
     how = inp.get("first_use", "named")
